@@ -161,9 +161,104 @@ def test_wrong_categories_create():
 
 def test_correct():
     example.run_inline(["--inline-snapshot=fix"], reported_categories=snapshot(["fix"]))
+
+
+raising = Example(
+    """\\
+def test_a():
+    1 / 0
+"""
+)
+quiet = Example(
+    """\\
+def test_a():
+    pass
+"""
+)
+
+
+def test_missing_raises():
+    raising.run_inline(raises=snapshot())
+
+
+def test_missing_raises_quiet():
+    quiet.run_inline(["--inline-snapshot=fix"], raises=snapshot())
+
+
+def test_wrong_raises():
+    raising.run_inline(["--inline-snapshot=create"], raises=snapshot("""\\
+ValueError:
+boom\\
+"""))
+
+
+def test_correct_raises():
+    raising.run_inline(raises=snapshot("""\\
+ZeroDivisionError:
+division by zero\\
+"""))
 '''
 EXAMPLE_EXPECT = {"test_missing_changed_files": "bad", "test_missing_categories": "bad", "test_wrong_changed_files": "bad", "test_wrong_categories_create": "bad",
-                  "test_correct": "good"}
+                  "test_correct": "good", "test_missing_raises": "bad", "test_missing_raises_quiet": "bad", "test_wrong_raises": "bad", "test_correct_raises": "good"}
+
+# wrong snapshots whose wrong part is controlled by the user (Is(), f-string, star-expression, a field that is no constructor argument): inline-snapshot
+# generates no change for that part, the test has to fail all the same - whatever is approved
+UNMANAGED_SRC = '''from dataclasses import dataclass, field
+
+from inline_snapshot import Is, snapshot
+
+
+@dataclass
+class Rec:
+    a: int
+    hidden: int = field(default=0, repr=False)
+
+
+def test_wrong_is():
+    want = 3
+    assert [1, 2] == snapshot([Is(want), 2])
+
+
+def test_wrong_is_top():
+    want = 3
+    assert 1 == snapshot(Is(want))
+
+
+def test_wrong_fstring():
+    who = "b"
+    assert "a 1" == snapshot(f"{who} 1")
+
+
+def test_wrong_fstring_in_dict():
+    who = "b"
+    assert {"k": "a 1", "n": 1} == snapshot({"k": f"{who} 1", "n": 1})
+
+
+def test_wrong_star():
+    head = [7]
+    assert [1, 2] == snapshot([*head, 2])
+
+
+def test_wrong_is_in_call():
+    want = 9
+    assert Rec(a=1) == snapshot(Rec(a=Is(want)))
+
+
+def test_wrong_and_managed_wrong():
+    want = 3
+    assert [1, 2, 5] == snapshot([Is(want), 2, 4])
+
+
+def test_holds():
+    who, want, head = "a", 1, [1]
+    assert "a 1" == snapshot(f"{who} 1")
+    assert [1, 2] == snapshot([Is(want), 2])
+    assert [1, 2] == snapshot([*head, 2])
+    assert Rec(a=1) == snapshot(Rec(a=Is(want)))
+    assert 1 == snapshot(Is(want))
+'''
+UNMANAGED_EXPECT = {"test_wrong_is": "bad", "test_wrong_is_top": "bad", "test_wrong_fstring": "bad", "test_wrong_fstring_in_dict": "bad", "test_wrong_star": "bad",
+                    "test_wrong_is_in_call": "bad", "test_wrong_and_managed_wrong": "bad", "test_holds": "good"}
 
 
 def run(ctx: Ctx):
@@ -205,6 +300,8 @@ def run(ctx: Ctx):
         items.append((src, expect, gen_config(ctx.rng)))
     for fl in ([], ["fix"], ["create", "fix", "trim", "update"], ["report"]):
         items.append((EXAMPLE_SRC, EXAMPLE_EXPECT, {"flags": fl, "mode": "example", "args": [f"--inline-snapshot={','.join(fl)}"] if fl else [], "stdin": b""}))
+    for fl in ([], ["fix"], ["update"], ["create", "fix", "trim", "update"], ["report"], ["short-report"]):
+        items.append((UNMANAGED_SRC, UNMANAGED_EXPECT, {"flags": fl, "mode": "unmanaged", "args": [f"--inline-snapshot={','.join(fl)}"] if fl else [], "stdin": b""}))
     results = tmap(run_session, items)
     for (src, expect, conf), res in zip(items, results):
         ctx.count(("session", src, tuple(conf["flags"])), len(expect) >= 2 or src.count("snapshot(") >= 3)
